@@ -132,6 +132,12 @@ func GenDistrCfg(t *rapid.T, o DistrGenOpts) DCfg {
 	n := rapid.IntRange(1, o.MaxSubs).Draw(t, "nSubs")
 	var cfg DCfg
 	shareNo := 0
+	// one configuration in twenty-five is wide: its first sub-distributor pays 95-130 more base accounts a
+	// small share each, so that the distributor keeps more than a hundred states
+	wide := 0
+	if rapid.IntRange(0, 24).Draw(t, "wideCfg") == 0 {
+		wide = rapid.IntRange(95, 130).Draw(t, "wideShares")
+	}
 	for i := 0; i < n; i++ {
 		l := fmt.Sprintf("sd%d", i)
 		used := map[string]bool{}
@@ -175,6 +181,17 @@ func GenDistrCfg(t *rapid.T, o DistrGenOpts) DCfg {
 			}
 			sd.Shares = append(sd.Shares, DShare{Name: fmt.Sprintf("share%d", shareNo), Share: genShare18(t, fmt.Sprintf("%s_shv%d", l, j), budget), Dest: a})
 			shareNo++
+		}
+		if i == 0 && wide > 0 {
+			small := []string{"100000000000000", "1000000000000000", "2000000000000000", "3333333333333333"}
+			for k := 0; k < wide; k++ {
+				v, _ := new(big.Int).SetString(small[(k+wide)%len(small)], 10)
+				if budget.Cmp(v) <= 0 {
+					break
+				}
+				budget.Sub(budget, v)
+				sd.Shares = append(sd.Shares, DShare{Name: fmt.Sprintf("wide%d", k), Share: v.String(), Dest: DAcc{Type: tBase, Id: FreshAddr(6000 + k).String()}})
+			}
 		}
 		cfg.Subs = append(cfg.Subs, sd)
 	}
@@ -264,6 +281,9 @@ func (c DCfg) Classes() map[string]bool {
 	cl := map[string]bool{}
 	if len(c.Subs) >= 2 {
 		cl["multi_sub"] = true
+	}
+	if len(c.Accounts()) > 100 {
+		cl["more_than_100_accounts_in_the_configuration"] = true
 	}
 	internalIds := map[string]bool{}
 	otherIds := map[string]bool{}
